@@ -33,7 +33,7 @@ TABLE = [
 
 def gen(chk, mpmath, rng):
     mp = mpmath.mp
-    for item in sf.samereal(chk, mpmath, rng, TABLE, 8, chk.pick(200, 10000), PROP):
+    for item in sf.samereal(chk, mpmath, rng, TABLE, 8, chk.pick(200, 10000), PROP, hiprec=0.08):
         yield item
     for i in range(chk.pick(200, 6000)):
         p = rng.choice([20, 53, 53, 100, 200]); mp.prec = p
@@ -42,15 +42,15 @@ def gen(chk, mpmath, rng):
             if c < 0.25:
                 n = rng.randint(0, 30)
                 exact = ex.neg(ex.div(ex.seqn("bern", n + 1), n + 1)) if n else ex.Qf(Fr(-1, 2))
-                yield ex.relabs_close(mp.zeta(-n), exact, 8, p), {"key": "exact/zeta(-n)", "n": n, "p": p, "what": "zeta(-n) != -B_(n+1)/(n+1)"}
-                yield ex.relabs_close(mp.altzeta(-n), ex.mul(ex.sub(1, ex.pow2(n + 1)), exact), 8, p), {"key": "exact/altzeta(-n)", "n": n, "p": p, "what": "altzeta(-n) != (1-2^(n+1)) zeta(-n)"}
+                yield ex.rel0_close(mp.zeta(-n), exact, 8, p), {"key": "exact/zeta(-n)", "n": n, "p": p, "what": "zeta(-n) != -B_(n+1)/(n+1)"}
+                yield ex.rel0_close(mp.altzeta(-n), ex.mul(ex.sub(1, ex.pow2(n + 1)), exact), 8, p), {"key": "exact/altzeta(-n)", "n": n, "p": p, "what": "altzeta(-n) != (1-2^(n+1)) zeta(-n)"}
             elif c < 0.5:
                 z = Fr(rng.randint(-60, 60), 64)
                 if z == 1: continue
                 Z = sf.q2m(mp, z); zq = ex.Qf(z)
                 s = rng.choice([0, -1, -2])
                 exact = {0: ex.div(zq, ex.sub(1, zq)), -1: ex.div(zq, ex.sq(ex.sub(1, zq))), -2: ex.div(ex.mul(zq, ex.add(1, zq)), ex.powi(ex.sub(1, zq), 3))}[s]
-                yield ex.relabs_close(mp.polylog(s, Z), exact, 8, p), {"key": "exact/polylog(s<=0)", "s": s, "z": str(z), "p": p, "what": "polylog at a non-positive integer order differs from its rational closed form"}
+                yield ex.rel0_close(mp.polylog(s, Z), exact, 8, p), {"key": "exact/polylog(s<=0)", "s": s, "z": str(z), "p": p, "what": "polylog at a non-positive integer order differs from its rational closed form"}
             elif c < 0.7:
                 s = rng.randint(2, 9); a = sf.posq(rng, 9); Am = sf.q2m(mp, a)
                 lhs = mp.zeta(s, Am); rhs = mp.zeta(s, Am + 1)
